@@ -83,7 +83,7 @@ def _(w, e):
     gc.enable()
     w.interp_before = _interp_settings()
     try:
-        n = sdn.parse(e["path"])
+        n = sdn.parse(e["path"], **({"architecture": e["arch"]} if e.get("arch") else {}))
         w.last_parse = "returned"
         return [n]
     except steps.StepBudgetExceeded as x:
@@ -242,6 +242,17 @@ class C15(Prop):
                 ev.append({"op": "fs_plan", "path": "sim://f%d.%s" % (k, f2), "plan": read_plan})
                 ev.append({"op": "parse_steps", "path": "sim://f%d.%s" % (k, f2), "tag": "follow_bad", "budget_mult": 50,
                            "facts": facts, "changed": True, "chars": len(bad)})
+            elif x < 0.9:
+                # the architecture= mode of parse: after the main reader, a primitive library (Verilog) is read and its port
+                # directions are put into the netlist. The library is the text itself, another design, or either of
+                # them cut short; whatever the outcome, the clauses on process-wide state hold after the call
+                ev.append({"op": "fs_put", "path": "sim://f%d.%s" % (k, f2), "text": t2})
+                lib = t2 if (f2 == "v" and r.random() < 0.6) else valid_text(r, "v", cfg["tier"])
+                if r.random() < 0.6:
+                    lib = lib[:max(1, int(len(lib) * r.uniform(0.1, 0.95)))]
+                ev.append({"op": "fs_put", "path": "sim://f%d_lib.v" % k, "text": lib})
+                ev.append({"op": "parse_steps", "path": "sim://f%d.%s" % (k, f2), "arch": "sim://f%d_lib.v" % k,
+                           "tag": "follow_arch"})
             else:
                 ev.append({"op": "netlist_new", "name": "n%d" % k})
                 ev.append({"op": "create_library", "on": "e%d.0" % (len(ev) - 1), "name": "a-b",
